@@ -4,6 +4,7 @@
 //! /verif/DESIGN.md §2.
 
 pub mod collections;
+pub mod fsprobe;
 pub mod kernel;
 pub mod net;
 pub mod rng;
@@ -11,7 +12,9 @@ pub mod sync;
 pub mod thread;
 pub mod time;
 
+pub use fsprobe::fs_event;
 pub use kernel::{
+    crash_disarm, crash_self_after,
     ExpectedPanic, Limits, Outcome, RunReport, RunSetup, buggify, chance, choose, count, count_by, event, in_sim,
     now_ns, run, yield_point,
 };
